@@ -64,8 +64,9 @@ impl Function {
                 if parts.len() != out.len() {
                     bail!("incorrect output length: expected {}, found {}.", parts.len(), out.len())
                 }
+                let x0 = *try_opt!(x.first());
                 for (f, y) in parts.iter().zip(out) {
-                    *y = f.apply(x[0]);
+                    *y = f.apply(x0);
                 }
                 Ok(())
             }
@@ -77,6 +78,7 @@ impl Function {
         match *self {
             Function::PostScript { ref domain, .. } => domain.len() / 2,
             Function::Sampled(ref f) => f.input.len(),
+            Function::Interpolated(_) => 1,
             _ => panic!()
         }
     }
@@ -84,6 +86,7 @@ impl Function {
         match *self {
             Function::PostScript { ref range, .. } => range.len() / 2,
             Function::Sampled(ref f) => f.output.len(),
+            Function::Interpolated(ref parts) => parts.len(),
             _ => panic!()
         }
     }
@@ -103,6 +106,9 @@ impl FromDict for Function {
                     _ => bail!("unknown dimensions")
                 };
                 let mut parts = Vec::with_capacity(n_dim);
+                if raw.domain.len() < 2 {
+                    bail!("/Domain needs two numbers");
+                }
                 let input_range = (raw.domain[0], raw.domain[1]);
                 for dim in 0 .. n_dim {
                     let output_range = (
@@ -137,7 +143,7 @@ impl Object for Function {
                         let s = std::str::from_utf8(&data)?;
                         let func = PsFunc::parse(s)?;
                         let info = stream.info.info;
-                        Ok(Function::PostScript { func, domain: info.domain, range: info.range.unwrap() })
+                        Ok(Function::PostScript { func, domain: info.domain, range: try_opt!(info.range) })
                     },
                     0 => {
                         let info = stream.info.info;
@@ -149,7 +155,7 @@ impl Object for Function {
 
                         let size = try_opt!(info.size);
                         let range = try_opt!(info.range);
-                        let encode = info.encode.unwrap_or_else(|| size.iter().flat_map(|&n| [0.0, (n-1) as f32]).collect());
+                        let encode = info.encode.unwrap_or_else(|| size.iter().flat_map(|&n| [0.0, n.saturating_sub(1) as f32]).collect());
                         let decode = info.decode.unwrap_or_else(|| range.clone());
 
                         Ok(Function::Sampled(SampledFunction {
@@ -219,7 +225,7 @@ struct SampledFunctionInput {
 }
 impl SampledFunctionInput {
     fn map(&self, x: f32) -> (usize, usize, f32) {
-        let x = x.clamp(self.domain.0, self.domain.1);
+        let x = x.max(self.domain.0).min(self.domain.1);
         let y = x.mul_add(self.encode_scale, self.encode_offset);
         (y.floor() as usize, self.size, y.fract())
     }
@@ -265,12 +271,12 @@ impl SampledFunction {
                 match self.order {
                     Interpolation::Linear => {
                         let (i, _, s) = self.input[0].map(x[0]);
-                        let idx = i * n_out;
+                        let idx = i.saturating_mul(n_out);
 
-                        for (o, &a) in out.iter_mut().zip(&self.data[idx..]) {
+                        for (o, &a) in out.iter_mut().zip(self.data.get(idx..).unwrap_or(&[])) {
                             *o = a as f32 * (1. - s);
                         }
-                        for (o, &b) in out.iter_mut().zip(&self.data[idx + n_out..]) {
+                        for (o, &b) in out.iter_mut().zip(self.data.get(idx.saturating_add(n_out)..).unwrap_or(&[])) {
                             *o += b as f32 * s;
                         }
                     }
@@ -281,14 +287,14 @@ impl SampledFunction {
                 Interpolation::Linear => {
                     let (i0, s0, f0) = self.input[0].map(x[0]);
                     let (i1,  _, f1) = self.input[1].map(x[1]);
-                    let (j0, j1) = (i0+1, i1+1);
+                    let (j0, j1) = (i0.saturating_add(1), i1.saturating_add(1));
                     let (g0, g1) = (1. - f0, 1. - f1);
                     
                     out.fill(0.0);
-                    let mut add = |i0, i1, f| {
-                        let idx = (i0 + s0 * i1) * n_out;
+                    let mut add = |i0: usize, i1: usize, f: f32| {
+                        let idx = i0.saturating_add(s0.saturating_mul(i1)).saturating_mul(n_out);
                         
-                        if let Some(part) = self.data.get(idx .. idx+n_out) {
+                        if let Some(part) = self.data.get(idx .. idx.saturating_add(n_out)) {
                             for (o, &b) in out.iter_mut().zip(part) {
                                 *o += f * b as f32;
                             }
@@ -307,14 +313,14 @@ impl SampledFunction {
                     let (i0, s0, f0) = self.input[0].map(x[0]);
                     let (i1, s1, f1) = self.input[1].map(x[1]);
                     let (i2,  _, f2) = self.input[2].map(x[2]);
-                    let (j0, j1, j2) = (i0+1, i1+1, i2+1);
+                    let (j0, j1, j2) = (i0.saturating_add(1), i1.saturating_add(1), i2.saturating_add(1));
                     let (g0, g1, g2) = (1. - f0, 1. - f1, 1. - f2);
                     
                     out.fill(0.0);
-                    let mut add = |i0, i1, i2, f| {
-                        let idx = (i0 + s0 * (i1 + s1 * i2)) * n_out;
+                    let mut add = |i0: usize, i1: usize, i2: usize, f: f32| {
+                        let idx = i0.saturating_add(s0.saturating_mul(i1.saturating_add(s1.saturating_mul(i2)))).saturating_mul(n_out);
                         
-                        if let Some(part) = self.data.get(idx .. idx+n_out) {
+                        if let Some(part) = self.data.get(idx .. idx.saturating_add(n_out)) {
                             for (o, &b) in out.iter_mut().zip(part) {
                                 *o += f * b as f32;
                             }
